@@ -37,4 +37,40 @@ PROPS = {
         level_text="Generated-input search: every generated (document, operation sequence, SupportNegativeIndices) is evaluated by an independent RFC 6902 model in the documented dialect and by DecodePatch+ApplyWithOptions; success/failure must agree and on success the output, read by an independent literal-preserving JSON reader, must equal the model's document. Exploration, not proof: it bounds what was tried (counts, classes and samples are in the evidence).",
         level_note="Trusted: the reference evaluator and JSON reader in harness/ref, rapid, the Go toolchain. Domain exclusions are exactly those of the property's quantifier and are counted in the evidence.",
     ),
+    "C05": dict(
+        pkg="c05", units=[rapid("TestProp", 12000, 150000), rapid("TestPropEmpty", 8000, 100000), rapid("TestPropMerge", 10000, 150000)], assumptions=COMMON_ASSUME,
+        technique="property-based testing (rapid): ordered, literal-exact comparison with the reference evaluator; order-validity predicate for MergePatch",
+        level_text="Generated-input search: Apply outputs are compared member-order- and literal-exactly with the ordered reference result (the model implements the stated order rules), the empty patch must reproduce the input in any spelling, and MergePatch outputs must satisfy the order predicate and carry every number literal. Exploration over generated documents with exotic literals and busy objects; no proof.",
+        level_note="Trusted: harness/ref (ordered tree, literal-preserving reader), rapid, Go toolchain. Order among members newly added by MergePatch is unspecified and not asserted.",
+    ),
+    "C08": dict(
+        pkg="c08", units=[rapid("TestProp", 15000, 200000)], assumptions=COMMON_ASSUME,
+        technique="property-based testing (rapid): injected inapplicable operations, cause classes from an option-aware reference evaluator checked against errors.Is/As; metamorphic suffix-irrelevance",
+        level_text="Generated-input search: each case holds an operation built to be inapplicable at a random position; the option-aware model names the first failing operation and its cause class, and the library must return (nil, err) with errors.Is(ErrTestFailed) / *AccumulatedCopySizeError exactly for the matching causes, ErrMissing for absent members and unreachable parents, and the same error when the suffix is cut off. Exploration only.",
+        level_note="Trusted: harness/ref evaluator incl. its model of AllowMissingPathOnRemove, EnsurePathExistsOnAdd (clear domain only) and copy sizes; when an operation has two independent reasons to fail either classification is accepted.",
+    ),
+    "C12": dict(
+        pkg="c12", units=[rapid("TestProp", 10000, 150000), rapid("TestPropV5Def", 5000, 60000), rapid("TestPropLegacy", 5000, 60000)], assumptions=COMMON_ASSUME,
+        technique="property-based testing (rapid): copy-heavy generated sequences, limit drawn around a reference running total of canonical sizes; v5 option, v5 package default, staged legacy package",
+        level_text="Generated-input search: the reference keeps the running total of the canonical (output-spelling) sizes of copied values; limits are drawn at, just below and just above the totals; the library must fail with *AccumulatedCopySizeError exactly when the total exceeds the limit, return no document then, and never fail at limit 0. Run through ApplyOptions, the v5 package variable and the legacy package variable. Exploration only.",
+        level_note="Trusted: harness/ref size model (len of canonical text for the EscapeHTML setting; a copied null counts 0..4 bytes and limits inside that interval are excluded). Inputs are spelled as the encoder spells them, as the property's quantifier states.",
+    ),
+    "C13": dict(
+        pkg="c13", units=[rapid("TestProp", 15000, 200000)], assumptions=COMMON_ASSUME,
+        technique="property-based testing (rapid): metamorphic relation (option on, P) == (option off, P minus skipped removes) with the skipped set computed by the reference evaluator",
+        level_text="Generated-input search over remove-heavy sequences: the reference marks the removes whose target or ancestor is absent; applying P with the option must equal applying P without those removes and without the option (same outcome, same error class, same ordered document = the model's). Exploration only.",
+        level_note="Trusted: harness/ref. Negative last tokens while negative indices are off, '-'/non-numeric tokens on arrays and remove of \"\" are outside the stated domain and excluded (counted).",
+    ),
+    "C14": dict(
+        pkg="c14", units=[rapid("TestProp", 15000, 200000)], assumptions=COMMON_ASSUME,
+        technique="property-based testing (rapid): generated extension paths vs a reference ensure+add model, ordered comparison, independent pointer lookup, agreement with plain add",
+        level_text="Generated-input search: an existing container path is extended by generated tokens (escaped names, indices, '-'); the output must equal the reference ensure+add result including member order (frame condition and 'nothing but path and padding' in one comparison), the value must be found at the path by an independent lookup, and the result must equal plain add's whenever plain add succeeds. Judged only in the property's clear domain. Exploration only.",
+        level_note="Trusted: harness/ref ensure model. Excluded and counted: null/scalar on the path, names addressed into arrays, last index beyond an existing array, negative and non-canonical indices, '-' before the last token.",
+    ),
+    "C15": dict(
+        pkg="c15", units=[rapid("TestProp", 6000, 80000), rapid("TestPropWF", 6000, 80000)], assumptions=COMMON_ASSUME,
+        technique="property-based testing (rapid): strict RFC 8259 recogniser + UTF-8 + value round trip on every output; metamorphic relations EscapeHTML on/off, ApplyIndent vs re-indented Apply (encoding/json.Indent differential), inserted passing tests",
+        level_text="Generated-input search over documents whose names and strings hold the HTML-sensitive characters: every successful output of the five functions must be one RFC 8259 text in valid UTF-8 denoting the reference value; the on/off outputs must differ in spelling only, obey the two escaping clauses, ApplyIndent must equal an independent re-indentation byte for byte, and inserted passing tests must not change a byte. Exploration only.",
+        level_note="Trusted: harness/ref recogniser and canonical writer, encoding/json.Indent of the default toolchain (cross-checked by an independent re-indenter). The byte-identity clauses are asserted only for inputs in the encoder's own spelling, as the quantifier states.",
+    ),
 }
